@@ -62,7 +62,8 @@ struct Options {
     long max_exec = -1;              // cap on executions (per bound iteration); -1 none
     double deadline = 0;             // absolute monotonic seconds; 0 none
     long watchdog = 400000;          // points per execution before calling it a livelock
-    int shard = 0, nshards = 1;      // partition of the first-deviation subtrees
+    int shard = 0, nshards = 1;      // partition of the subtrees below deviation depth shard_depth
+    int shard_depth = 1;
     bool stateful = false;           // prune on (thread observation hashes, shared digest, budget)
     bool isolate = true;             // run the exploration in a forked child (crash/deadlock isolation)
     bool iterate_bounds = true;      // run bound 0,1,..,bound (first counterexample has fewest deviations)
